@@ -383,6 +383,27 @@ def gen_runs(chk, step):
             inner.name_override = "a"
         for rep in ("xml", "libxml", "text"):
             runs.append(("shortdepth d=%d" % depth, inner, rep, "forked", 1))
+    # the xml reporters with a printer of the caller's: no per-suite file, so neither NAME_MAX nor PATH_MAX ends
+    # the run early - depth around the 1000-byte indentation buffer, names around the PATH_MAX-byte suite path
+    for depth in ([998, 999, 1000, 1001] if chk.tier == "quick" else [1, 100, 500, 998, 999, 1000, 1001, 1002, 1500]):
+        tid[0] = 0
+        inner = L.Suite(depth, children=[test()])
+        inner.name_override = "a"
+        for d in range(depth - 1, -1, -1):
+            inner = L.Suite(d, children=[inner])
+            inner.name_override = "a"
+        for rep in ("xmlp", "libxmlp"):
+            runs.append(("printerdepth d=%d" % depth, inner, rep, "forked", 1))
+    for nlev, ln in ([(3, 3000), (2, 4095), (2, 4094), (5, 1023), (4, 1024)] if chk.tier == "quick" else
+                     [(3, 3000), (2, 4095), (2, 4094), (2, 4093), (5, 1023), (4, 1024), (4, 1023), (9, 511), (8, 512), (3, 5000), (40, 100), (41, 100), (42, 100)]):
+        tid[0] = 0
+        inner = L.Suite(nlev, children=[test("t" * ln)])
+        inner.name_override = "s" * ln
+        for d in range(nlev - 1, -1, -1):
+            inner = L.Suite(d, children=[inner])
+            inner.name_override = "s" * ln
+        for rep in ("xmlp", "libxmlp"):
+            runs.append(("printernames levels=%d len=%d" % (nlev + 1, ln), inner, rep, "forked", 1))
     # name lengths: suite, nested suite and test names
     lens = [1, 50, 90, 93, 94, 99, 100, 101, 255, 256, 999, 1000, 1001, 4090, 5000] if chk.tier == "thorough" else [1, 93, 94, 99, 100, 101, 255, 1000, 1001, 5000]
     for ln in lens:
